@@ -629,3 +629,124 @@ for _fn in ("__add__", "__sub__", "__mul__", "__neg__", "privval", "pubval", "ze
     register(type("NoBackend_" + _fn.strip("_"), (_NoBackend,),
                   dict(name="%s:%s%s" % (NOBACKEND, "NoneObject." if _fn.startswith("__") else "", _fn), fn=_fn,
                        __doc__="nobackend.%s: inert" % _fn)))
+
+
+# ---------------------------------------------------------------------------
+# pysnark.libsnark.backend: the primitives are one-line uses of the C++ binding, which is absent here.  Verified at
+# CALL level against an ASSUMED contract of the binding (GLib below): which protoboard operations happen, in which
+# order, on which objects.  The algebra of libsnark.LinearCombination itself is C++ and out of reach.
+# ---------------------------------------------------------------------------
+LIBSNARK = "pysnark.libsnark.backend"
+
+
+class GLibVar:
+    def __init__(self):
+        self.pb = None
+        self.index = None
+
+    def allocate(self, pb):
+        self.pb = pb
+        pb.vars.append(self)
+        self.index = len(pb.vars)
+
+
+class GLibLC:
+    def __init__(self, x=None):
+        # LinearCombination(): empty; LinearCombination(int): constant; LinearCombination(variable): that variable
+        self.terms = {} if x is None else ({0: x} if isinstance(x, int) else {x: 1})
+
+
+class GLibPb:
+    def __init__(self):
+        self.vars, self.public, self.values, self.constraints, self.calls = [], [], {}, [], []
+
+    def setval(self, v, val):
+        self.calls.append(("setval", v))
+        self.values[v] = val
+
+    def setpublic(self, v):
+        self.calls.append(("setpublic", v))
+        self.public.append(v)
+
+    def add_r1cs_constraint(self, con):
+        self.constraints.append(con)
+
+
+def _lib_world(w):
+    _stub_world(w)
+    lib = types.ModuleType("libsnark.alt_bn128")
+    lib.ProtoboardPub = GLibPb
+    lib.PbVariable = GLibVar
+    lib.LinearCombination = GLibLC
+    lib.R1csConstraint = lambda a, b, c_: ("r1cs", a, b, c_)
+    lib.fieldinverse = lambda v: ("binding.fieldinverse", v)
+    lib.get_modulus = lambda: BN254_R
+    top = types.ModuleType("libsnark")
+    top.alt_bn128 = lib
+    w.module_overrides["libsnark"] = top
+    w.module_overrides["libsnark.alt_bn128"] = lib
+
+
+class _Libsnark(_Backend):
+    module = LIBSNARK
+    fn = None
+
+    def world_setup(self, w):
+        _lib_world(w)
+
+    def configs(self, tier):
+        return [dict(history=h) for h in (0, 2)]
+
+    def setup(self, c, cfg):
+        m = self.mod(c)
+        for i in range(cfg["history"]):          # an arbitrary allocation history before the call
+            (m.privval if i % 2 else m.pubval)(SymInt(z3.Int("s_h%d" % i)))
+        pb = m.pb
+        self._before = (list(pb.vars), list(pb.public), dict(pb.values), list(pb.constraints))
+        self._ncalls = len(pb.calls)
+        f = getattr(m, self.fn)
+        if self.fn in ("privval", "pubval", "fieldinverse"):
+            self._v = SymInt(z3.Int("s_v"))
+            return f, (self._v,), {}
+        if self.fn == "add_constraint":
+            self._abc = (GLibLC(), GLibLC(1), GLibLC())
+            return f, self._abc, {}
+        return f, (), {}
+
+    def post(self, c, r, *a):
+        m = self.mod(c)
+        pb = m.pb
+        vars0, pub0, vals0, cons0 = self._before
+        d = {}
+        if self.fn in ("privval", "pubval"):
+            new = pb.vars[len(vars0):]
+            d["V.one_variable_allocated_on_the_module_protoboard"] = len(new) == 1 and pb.vars[:len(vars0)] == vars0 and new[0].pb is pb
+            if len(new) == 1:
+                v = new[0]
+                d["V.value_set"] = v in pb.values and pb.values[v] is self._v
+                d["V.public_flag"] = (v in pb.public) == (self.fn == "pubval") and pb.public[:len(pub0)] == pub0
+                d["V.allocated_before_use"] = all(v.index is not None for _k, x in pb.calls[self._ncalls:] for v in [x])
+                d["V.returns_that_variable"] = isinstance(r, GLibLC) and list(r.terms.items()) == [(v, 1)]
+            d["F.earlier_values_untouched"] = all(pb.values.get(k) is x for k, x in vals0.items())
+            d["F.no_constraint_added"] = pb.constraints == cons0
+        elif self.fn == "zero":
+            d["V.empty"] = isinstance(r, GLibLC) and r.terms == {}
+            d["F.protoboard_untouched"] = (pb.vars, pb.public, pb.constraints) == (vars0, pub0, cons0)
+        elif self.fn == "one":
+            d["V.constant_one"] = isinstance(r, GLibLC) and r.terms == {0: 1}
+            d["F.protoboard_untouched"] = (pb.vars, pb.public, pb.constraints) == (vars0, pub0, cons0)
+        elif self.fn == "add_constraint":
+            new = pb.constraints[len(cons0):]
+            A, B, C = self._abc
+            d["V.exactly_this_triple_in_order"] = len(new) == 1 and new[0][0] == "r1cs" and new[0][1] is A and new[0][2] is B and new[0][3] is C
+            d["F.no_variable_allocated"] = pb.vars == vars0 and pb.public == pub0
+        elif self.fn == "fieldinverse":
+            d["V.delegates_to_the_binding"] = r == ("binding.fieldinverse", self._v)
+        elif self.fn == "get_modulus":
+            d["V.delegates_to_the_binding"] = r == BN254_R
+        return d
+
+
+for _fn in ("privval", "pubval", "zero", "one", "add_constraint", "fieldinverse", "get_modulus"):
+    register(type("Libsnark_" + _fn, (_Libsnark,), dict(name="%s:%s" % (LIBSNARK, _fn), fn=_fn,
+                                                        __doc__="libsnark backend %s against the assumed binding contract" % _fn)))
